@@ -35,7 +35,7 @@ func keyIdx(k string) int {
 func keyedInstance(ctx context.Context, key string, outcome int) error {
 	ki := keyIdx(key)
 	removedAtEntry := vsched.Ctr(kRemovedA) != 0 // sampled at the very entry, before any scheduling point
-	done := ctx.Done() // (a scheduling point) before the instance registers itself
+	done := ctx.Done()                           // (a scheduling point) before the instance registers itself
 	id := int(vsched.CtrAdd(kEntered, 1)) - 1
 	if id >= 36 {
 		fail("infra.too-many-instances", "more than 36 instances")
